@@ -220,6 +220,10 @@ const CHARSETS: &[Option<&str>] = &[
   Some("iso-2022-kr"),
   Some("utf-32le"),
   Some("bogus-charset"),
+  // headers present, but none that names a charset (same rule as no headers)
+  Some("#content-type-without-charset"),
+  Some("#unrelated-header-only"),
+  Some("#empty-header-map"),
 ];
 
 pub const ALPHABET: &[u8] = &[
@@ -254,18 +258,37 @@ fn content_type(c: &Case) -> Option<String> {
     1 => "application/typescript",
     _ => "application/json",
   };
-  c.charset.map(|cs| format!("{}; charset={}", mt, cs))
+  c.charset.filter(|cs| !cs.starts_with('#')).map(|cs| format!("{}; charset={}", mt, cs))
+}
+
+fn headers_of(c: &Case) -> Vec<(String, String)> {
+  let mt = match c.media {
+    0 => "application/javascript",
+    1 => "application/typescript",
+    _ => "application/json",
+  };
+  match c.charset {
+    Some("#content-type-without-charset") => vec![("content-type".to_string(), mt.to_string())],
+    Some("#unrelated-header-only") => vec![("x-served-by".to_string(), "harness".to_string())],
+    Some("#empty-header-map") => vec![("#empty-map".to_string(), String::new())],
+    _ => content_type(c).map(|ct| vec![("content-type".to_string(), ct)]).unwrap_or_default(),
+  }
 }
 
 /// Runs one batch of cases through one real build and checks every module.
 pub fn run_batch(cases: &[Case], acc: &mut Acc) {
+  run_batch_opt(cases, acc, false)
+}
+
+/// `via_retry`: every remote module first fails its lockfile checksum (stale
+/// cached bytes) and arrives through the cache-bypassing retry; the response
+/// that finally supplies the bytes carries the headers.
+pub fn run_batch_opt(cases: &[Case], acc: &mut Acc, via_retry: bool) {
   let mut world = World::new();
   let mut roots = vec![];
   for (i, c) in cases.iter().enumerate() {
     let u = case_url(c, i);
-    let headers = content_type(c)
-      .map(|ct| vec![("content-type".to_string(), ct)])
-      .unwrap_or_default();
+    let headers = headers_of(c);
     world.add(
       &u,
       Resp::Module {
@@ -292,7 +315,19 @@ pub fn run_batch(cases: &[Case], acc: &mut Acc) {
       roots.push((u, false));
     }
   }
-  let loader = ScriptedLoader::new(&world);
+  let mut loader = ScriptedLoader::new(&world);
+  let mut locker = RecLocker::default();
+  if via_retry {
+    loader.reload_is_honest = true;
+    for (i, c) in cases.iter().enumerate() {
+      if c.remote && c.media != 3 {
+        let u = url(&case_url(c, i)).to_string();
+        loader.tamper.insert(u.clone(), b"stale cached copy".to_vec());
+        locker.remote.insert(u, sha256_hex(&c.bytes));
+        acc.count("cases_arriving_through_the_checksum_retry");
+      }
+    }
+  }
   let mut graph = ModuleGraph::new(GraphKind::All);
   // modules needing the real parser (importers) are built separately
   let plain_roots: Vec<ModuleSpecifier> = roots
@@ -315,6 +350,7 @@ pub fn run_batch(cases: &[Case], acc: &mut Acc) {
         deno_graph::BuildOptions {
           module_analyzer: &analyzer,
           executor: &crate::sched::InlineExecutor,
+          locker: if via_retry { Some(&mut locker) } else { None },
           ..Default::default()
         },
       ));
@@ -351,7 +387,7 @@ pub fn run_batch(cases: &[Case], acc: &mut Acc) {
   for (i, c) in cases.iter().enumerate() {
     acc.eval();
     let u = url(&case_url(c, i));
-    let enc = match c.charset {
+    let enc = match c.charset.filter(|cs| !cs.starts_with('#')) {
       Some(cs) => enc_for_label(cs),
       None => {
         if !c.remote && c.bytes.starts_with(&[0xFF, 0xFE]) {
@@ -600,7 +636,10 @@ pub fn run(tier: Tier, seed: u64, miri: bool) -> i32 {
     acc
   } else {
     par_run(n_batches, |b, acc| {
-      run_batch(&cases[b * batch..((b + 1) * batch).min(cases.len())], acc)
+      run_batch(&cases[b * batch..((b + 1) * batch).min(cases.len())], acc);
+      if b % 8 == 3 {
+        run_batch_opt(&cases[b * batch..((b + 1) * batch).min(cases.len())], acc, true);
+      }
     })
   };
   let mut acc = acc;
